@@ -46,6 +46,11 @@ def memo_programs(ctx):
             if swap:
                 x, y = {1: 2, 2: 1, 3: 4, 4: 3}[y], {1: 2, 2: 1, 3: 4, 4: 3}[x]
             p.bin(op, x, y, 5)
+        p.bin('Mul', 1, 2, 5)            # the product, then its quotients by either factor, both kinds of operand
+        p.bin('Div', 5, 2, 6)
+        p.bin('Div', 5, 1, 6)
+        p.bin('Div', 5, 4, 6)
+        p.bin('Div', 5, 3, 6)
         progs.append(p.d())
     # other calls evaluated before a product must not matter either: quantize (zero amount / rejected, explicit mode),
     # round, comparisons - then products and quotients that land exactly between two multiples of a quantum
